@@ -1,9 +1,9 @@
 CONSTANTS
   MaxComps = 3
-  MixedUpTo = 3
+  MixedUpTo = 2
   SecureJoinOn = TRUE
   FLim = 4096
-  TLim = 10000
+  TLim = 6000
   Huge = 1000000
   SizeEntries = 2
 SPECIFICATION Spec
